@@ -132,7 +132,10 @@ func bitXor(a, b Bit) Bit {
 }
 
 // BV is a bit vector of a fixed width (least significant bit first).
-type BV struct{ Bits []Bit }
+type BV struct {
+	Bits  []Bit
+	negOf *BV // set when this word is the two's-complement negation of negOf
+}
 
 func (v *BV) String() string {
 	var s []string
@@ -215,6 +218,16 @@ func (d *BitDom) lift(in *Interp, v Val, t types.Type) *BV {
 	return nil
 }
 
+func negPair(a, b *BV) *BV {
+	if a.negOf != nil && a.negOf == b {
+		return b
+	}
+	if b.negOf != nil && b.negOf == a {
+		return a
+	}
+	return nil
+}
+
 func resize(x *BV, w int) *BV {
 	v := &BV{Bits: make([]Bit, w)}
 	for i := 0; i < w; i++ {
@@ -279,6 +292,15 @@ func (d *BitDom) BinOp(in *Interp, op token.Token, x, y Val, xt types.Type, pos 
 			r.Bits[i] = bitAnd(a.Bits[i], b.Bits[i])
 		}
 	case token.OR:
+		// n | −n : bit i is the OR of bits 0..i of n (two's complement: −n_i = n_i ⊕ OR_{j<i} n_j, and a | (a⊕b) = a | b)
+		if src := negPair(a, b); src != nil {
+			acc := bitConst(0)
+			for i := range r.Bits {
+				acc = bitOr(acc, src.Bits[i])
+				r.Bits[i] = acc
+			}
+			return d.out(r)
+		}
 		for i := range r.Bits {
 			r.Bits[i] = bitOr(a.Bits[i], b.Bits[i])
 		}
@@ -313,6 +335,12 @@ func (d *BitDom) UnOp(in *Interp, op token.Token, x Val, xt types.Type, pos ssa.
 			r.Bits[i] = bitNot(a.Bits[i])
 		}
 		return d.out(r)
+	}
+	if op == token.SUB {
+		// −n: individual bits are not OR-sets, but n | −n is the prefix OR (see BinOp)
+		t := bvTop(len(a.Bits))
+		t.negOf = a
+		return t
 	}
 	return bvTop(len(a.Bits))
 }
